@@ -5,7 +5,8 @@
    setter preserves the whole invariant, and everything about schema content
    (usedUserTypes/usedUserEnums), is checked on the implementation's JSON for every accepted
    case and through the skeleton correspondence. *)
-From JS Require Import Base Bytes Scanner Directive Core Expand Catalog C05Proofs CatalogOrder CatalogIds TagLinks.
+From JS Require Import Base Bytes Scanner Directive Core Expand Catalog C05Proofs CatalogOrder CatalogIds TagLinks ResponseCodes.
+From JS Require DirectiveTables.
 
 (* registering an interaction under tag names: every existing tag keeps its name; it lists
    each id as often as before, plus the new id once per occurrence of the tag's name among
@@ -87,6 +88,38 @@ Theorem C05_tags_and_interactions_are_linked_both_ways :
        exists i, In i (c_inters c) /\ inter_id i = id /\ is_http i = http /\ In (tg_name t) (tags_of i)).
 Proof. exact built_catalog_tags_are_linked. Qed.
 
+(* "response codes are 100-599 and every response has a body", for EVERY catalog the builder
+   produces (Proofs/ResponseCodes.v: invariant of every add-function, lifted over branches and
+   forests): a response is only ever created by a response-code directive and keeps that
+   directive and its keyword as code whatever is added later (body, headers); the directive table
+   gives that kind only to keywords that are response codes in the sense of
+   directive.IsHTTPResponseCode; validateCatalog leaves no response and no request without body *)
+Theorem C05_every_response_comes_from_a_response_code_directive :
+  forall read_body banned fuel forest c,
+    build_catalog read_body banned fuel forest = COk c ->
+    forall h r, In (IHttp h) (c_inters c) -> In r (hi_responses h) ->
+      d_kind (rs_dir r) = DirectiveTables.dir_HTTPResponseCode /\ rs_code r = d_keyword (rs_dir r).
+Proof. exact built_catalog_responses_come_from_response_code_directives. Qed.
+
+Theorem C05_response_codes_are_100_to_599 :
+  forall read_body banned fuel forest c,
+    build_catalog read_body banned fuel forest = COk c ->
+    forall h r, In (IHttp h) (c_inters c) -> In r (hi_responses h) ->
+      new_directive_type (d_keyword (rs_dir r)) = Some (d_kind (rs_dir r)) ->
+      is_http_response_code (rs_code r) = true.
+Proof. exact built_catalog_response_codes_are_in_range. Qed.
+
+Theorem C05_every_response_and_request_has_a_body :
+  forall read_body banned fuel forest c,
+    build_catalog read_body banned fuel forest = COk c ->
+    forall h, In (IHttp h) (c_inters c) ->
+      (forall r, In r (hi_responses h) -> rs_body r <> None) /\
+      (forall q, hi_request h = Some q -> rq_body q <> None).
+Proof. exact built_catalog_responses_and_requests_have_bodies. Qed.
+
+Print Assumptions C05_every_response_comes_from_a_response_code_directive.
+Print Assumptions C05_response_codes_are_100_to_599.
+Print Assumptions C05_every_response_and_request_has_a_body.
 Print Assumptions C05_built_catalog_ids_are_distinct.
 Print Assumptions C05_built_catalog_http_id_is_protocol_method_path.
 Print Assumptions C05_tags_and_interactions_are_linked_both_ways.
